@@ -103,10 +103,9 @@ PktSet(m) ==
 
 \* the scanner reads entry k as value e.  Only an observation with the largest last_seen can ever match
 \* the entry again (last_seen never decreases), so that one is kept; ties: the later one.
-Observe(k, e) ==
-    /\ obs' = [obs EXCEPT ![k] = IF obs[k].set /\ obs[k].e.ls > e.ls THEN @
-                                  ELSE [set |-> TRUE, e |-> e, at |-> now]]
-    /\ UNCHANGED <<ct, now>>
+ObsUpd(o, k, e, t) == [o EXCEPT ![k] = IF o[k].set /\ o[k].e.ls > e.ls THEN @
+                                          ELSE [set |-> TRUE, e |-> e, at |-> t]]
+Observe(k, e) == obs' = ObsUpd(obs, k, e, now) /\ UNCHANGED <<ct, now>>
 
 Delete(k) ==
     /\ ct[k].ex
